@@ -7,6 +7,7 @@ mod gen;
 mod html;
 mod mime;
 mod parse;
+mod rerun;
 mod sass;
 mod script;
 mod sub;
@@ -63,6 +64,7 @@ fn main() {
         "sass" => sass::run(&args),
         "mime" => mime::run(&args),
         "script" => script::run(&args),
+        "rerun" => rerun::run(&args),
         "runscript" => script::child(&a[2]),
         s => {
             eprintln!("unknown suite {s}");
